@@ -25,6 +25,8 @@ pub struct Ctx {
     pub out: String,
     pub scratch: String,
     pub replay_input: Option<Value>,
+    /// replicate mode: every worker runs every case (shard = replica id); used by C16
+    pub replicate: bool,
 
     pub evaluations: u64,
     pub shapes: BTreeSet<u64>,
@@ -56,6 +58,7 @@ impl Ctx {
         let mut scratch = String::from("/verif/target/scratch");
         let mut budget = None;
         let mut replay_input = None;
+        let mut replicate = false;
         let mut i = 0;
         while i < args.len() {
             let a = &args[i];
@@ -87,6 +90,7 @@ impl Ctx {
                         skip.insert(s.parse().expect("skip"));
                     }
                 }
+                "--replicate" => replicate = true,
                 "--out" => out = val(),
                 "--scratch" => scratch = val(),
                 "--budget-s" => budget = Some(Duration::from_secs_f64(val().parse().expect("budget"))),
@@ -120,6 +124,7 @@ impl Ctx {
             out,
             scratch,
             replay_input,
+            replicate,
             evaluations: 0,
             shapes: BTreeSet::new(),
             counters: BTreeMap::new(),
@@ -153,7 +158,7 @@ impl Ctx {
         if let Some(c) = self.only_case {
             return i == c;
         }
-        i >= self.from && i % self.nshards == self.shard && !self.skip.contains(&i)
+        i >= self.from && (self.replicate || i % self.nshards == self.shard) && !self.skip.contains(&i)
     }
 
     /// The case indices of `0..total` that this worker runs.
@@ -162,7 +167,7 @@ impl Ctx {
             return if c < total { vec![c] } else { vec![] };
         }
         (self.from..total)
-            .filter(|i| i % self.nshards == self.shard && !self.skip.contains(i))
+            .filter(|i| (self.replicate || i % self.nshards == self.shard) && !self.skip.contains(i))
             .collect()
     }
 
